@@ -75,12 +75,12 @@ def run_align(ck, tier, pid):
             other = 0
             for l, why in v["fails"]:
                 e = evs[l - 1]
-                if why.startswith("SPEC:"):
+                if "SPEC:" in why:
                     raise vlib.Infra("specification inconsistency: %s on %s" % (why, json.dumps(e)[:800]))
-                mine = (why == C08_FAIL) == (pid == "C08")
-                if not mine:
+                if not why.startswith(pid + ": "):
                     other += 1
                     continue
+                why = why[5:]
                 ck.violation("%s %s: %s" % (e["aligner"], e.get("kind", ""), why) +
                              ("" if e["ill"] else " r=%s q=%s open=%s pairs=%s" % (e["r"], e["q"], e["open"], e["pairs"])),
                              {"kind": "align-record", "record": e, "why": why})
@@ -130,9 +130,10 @@ def run_align(ck, tier, pid):
         sp = os.path.join(work, "selftest.ndjson")
         vlib.write_ndjson(sp, [bad])
         v, r = vlib.validate("Align", "AlignTrace", "AlignTrace.cfg", sp)
-        if len(v["fails"]) != 1:
+        own = [f for f in v["fails"] if f[1].startswith(pid + ": ")]
+        if len(own) != 1:
             raise vlib.Infra("binding self-test failed: corrupted record accepted (%s)" % v)
-        ck.parts.append({"part": "binding-selftest", "note": "corrupted record rejected: " + v["fails"][0][1]})
+        ck.parts.append({"part": "binding-selftest", "note": "corrupted record rejected: " + own[0][1]})
     finally:
         shutil.rmtree(work, ignore_errors=True)
 
